@@ -35,6 +35,7 @@ def openStr (r : OpenResult) : String :=
   | .ok es w => "ok " ++ toString es.length ++ " warn=" ++ toString w ++ " " ++ " ".intercalate (es.map entryStr)
   | .errorOld => "errorOld"
   | .errorSeek f => "errorSeek freesCaller=" ++ toString f
+  | .undefined => "undefined"
 
 /-- most recent value per id, ascending ids -/
 def canonState (st : State) : List Field :=
@@ -127,7 +128,8 @@ def step (toks : List String) : IO String := do
       (match r with
        | .ok es w => "ok:" ++ toString es.length ++ ":" ++ (if w then "w" else "n")
        | .errorOld => "old"
-       | .errorSeek fc => if fc then "abort" else "seek") ++ ":" ++ tail)
+       | .errorSeek fc => if fc then "abort" else "seek"
+       | .undefined => "undefined") ++ ":" ++ tail)
     return " ".intercalate res
   | ["crashimg", file, pos, datafile, k, out] =>
     let f ← if file == "-" then pure [] else readBytes file
